@@ -10,11 +10,13 @@ func init() {
 		Explain: otherNote + "C10: decided = parser, printer and FieldParams of ExtendedSpatialID agree position by position; the two notation conversions are the canonical permutations (layout inference), one output per input in order; the expansion targets max(h,v), raises only the coarser axis with C03's functions and copies the other axis; arity guards. Region equality / counts of the expansion are NOT decided."})
 	register(&propSpec{ID: "C11", Level: "other", Run: runC11,
 		Canary: []CanaryExpect{{Rule: "ELEMENTWISE", Bad: "canaryBadPrevCache", Good: "canaryGoodNoState"}, {Rule: "ELEMENTWISE", Bad: "canaryBadCarriedTile", Good: "canaryGoodNoState"}, {Rule: "CACHE-KEY", Bad: "canaryBadMemoKey", Good: "canaryGoodMemoKey"},
-			{Rule: "KIND-STORE", Bad: "canaryBadNarrowIndex", Good: "canaryGoodWideIndex"}, {Rule: "KIND-LAYOUT", Bad: "canaryBadTrimCutset", Good: "canaryGoodTrimPrefix"}},
+			{Rule: "KIND-STORE", Bad: "canaryBadNarrowIndex", Good: "canaryGoodWideIndex"}, {Rule: "KIND-LAYOUT", Bad: "canaryBadTrimCutset", Good: "canaryGoodTrimPrefix"},
+			{Rule: "UNTRIMMED", Bad: "canaryBadUntrimmed", Good: "canaryGoodTrimmed"}, {Rule: "UNTRIMMED", Bad: "canaryBadUntrimmed", Good: "canaryGoodFullFill"}},
 		Explain: otherNote + "C11: decided = groups report the request's zooms/height/base parameters unchanged (argument kinds at the constructors); a pair is appended only behind a miss on the cross-ID map; per-ID scratch lists are fresh; per-axis zoom change is integrate.HorizontalZoom/VerticalZoom with correctly wired roles; encoder/decoder are integer-only; zoom domain and malformed-ID guards. Bit-interleaving bijectivity is NOT decided."})
 	register(&propSpec{ID: "C12", Level: "other", Run: runC12,
 		Explain: otherNote + "C12: decided = every resolution change of a vertical index/key is a signed shift (floor); all callers consume both bounds (known finding for the detector under C05); index-existence tests accept exactly [-2^z,2^z-1] / [0,2^z-1]; both returned bounds are range-checked; the scale(index+1)-1 form is guarded or clamped; failure returns carry (0,0). The interval-cover arithmetic itself is NOT decided.",
-		Canary:  []CanaryExpect{{Rule: "RANGEUSE", Bad: "canaryBadDropMax", Good: "canaryGoodBothBounds"}}})
+		Canary: []CanaryExpect{{Rule: "RANGEUSE", Bad: "canaryBadDropMax", Good: "canaryGoodBothBounds"},
+			{Rule: "ROUND", Bad: "canaryBadBitFill", Good: "canaryGoodBitFill"}}})
 	register(&propSpec{ID: "C13", Level: "other", Run: runC13,
 		Canary:  []CanaryExpect{{Rule: "KIND-STORE", Bad: "canaryBadStoreSwap", Good: "canaryGoodStore"}},
 		Explain: otherNote + "C13: decided = hZoom/x/y copied field for field and vZoom is the request's (kinds at the setters); the emitted vertical range is exactly the range returned for that tile; error returns carry nil; results are the key set of one map; the spatial variant is the expansion composed with the extended variant; tile zooms validated on both sides."})
@@ -40,7 +42,7 @@ func runC10(w *World, r *Report, tier string) {
 	}
 	r.Analysed["closure_functions"] = len(own)
 	kr := kindRulesFor(w)
-	kr.emit(w, r, []string{"KIND-CALL", "KIND-LAYOUT", "KIND-STORE"}, own)
+	kr.emit(w, r, []string{"KIND-CALL", "KIND-LAYOUT", "KIND-STORE", "ROUND"}, own)
 	if f := lookupByName(w, "shape.ConvertSpatialIdsToExtendedSpatialIds"); f != nil {
 		ruleMapOrder(w, r, f, 0)
 	}
@@ -77,6 +79,9 @@ func runC11(w *World, r *Report, tier string) {
 	}
 	kr := kindRulesFor(w)
 	kr.emit(w, r, []string{"KIND-CALL", "KIND-LAYOUT", "KIND-STORE"}, own)
+	// the vertical component goes through the zoom change of integrate (or a sibling of
+	// it): its rounding sites are part of this conversion
+	kr.emit(w, r, []string{"ROUND"}, cl)
 	rulePairDedup(w, r, "transform.ConvertExtendedSpatialIDsToQuadkeysAndVerticalIDs")
 	rulePairDedup(w, r, "transform.ConvertExtendedSpatialIDsToQuadkeysAndAltitudekeys")
 	ruleNoFloat(w, r, cl)
@@ -89,6 +94,7 @@ func runC11(w *World, r *Report, tier string) {
 		}
 	}
 	ruleCacheKey(w, r, own)
+	ruleUntrimmed(w, r, own)
 	// REUSE: the per-axis zoom change is integrate's
 	r.Rule("REUSE", "the horizontal and vertical components of both conversion directions are produced by integrate.HorizontalZoom / integrate.VerticalZoom (resolved callees), so different output zooms behave exactly like the zoom change of C03 on each axis")
 	for _, n := range names {
